@@ -427,6 +427,7 @@ func runC06(c *Ctx) error {
 	{
 		n := 7
 		u := &History{Subs: linearSubs(2, genesisID, n+2, bitsW2, tsNew)}
+		uu := &History{Subs: linearSubs(2, genesisID, n+4, bitsW2, tsNew)}
 		for _, lag := range []int{2, 4} {
 			for _, cp := range []int{1, 2} {
 				for _, cps := range [][]cpSpec{{{1, 2}}, {{1, 2}, {n - lag, n - lag + 1}}} {
@@ -436,6 +437,24 @@ func runC06(c *Ctx) error {
 						sc := &Scenario{Eng: "d", Cps: cps, U: u, Nodes: []*nodeSpec{l, h}, Cmds: cmds}
 						if err := g.do(sc, "lagging-followup"); err != nil {
 							return err
+						}
+					}
+					// 2..4 consecutive announcements of the non-sync peer, each after the previous one was fetched (a run to
+					// quiescence in between); one scenario per prefix, so the convergence oracle is applied after each of them
+					hh := &nodeSpec{P: 2, Cap: cp, Chain: seqInts(2, n), Reserve: seqInts(n+2, 4)}
+					for _, kind := range []string{"i", "h"} {
+						if kind == "h" && (lag != 2 || len(cps) != 1) && !c.Thorough() {
+							continue
+						}
+						cmds := []string{"C1", "R40", "C2", "R40"}
+						for r := 1; r <= 4; r++ {
+							cmds = append(cmds, "A2.1."+kind, "R80")
+							if r >= 2 {
+								sc := &Scenario{Eng: "d", Cps: cps, U: uu, Nodes: []*nodeSpec{l, hh}, Cmds: append([]string{}, cmds...)}
+								if err := g.do(sc, "lagging-followup"); err != nil {
+									return err
+								}
+							}
 						}
 					}
 				}
